@@ -435,6 +435,20 @@ static void genLayoutTree(vh::Rng &r, int shape, int n, std::vector<int> &parent
             }
         }
         break; }
+    case 10: { // pairs of subtrees that computeIsomString cannot tell apart although they are not isomorphic
+               // (its class counter k is never incremented, so a tuple only records leaf / non-leaf children):
+               // T1 = {x:{p_a,q_b}, y:{p_a,q_b}},  T2 = {x:{p_a,p_a}, y:{q_b,q_b}}  (p_a = node with a leaves)
+        int kids = (int) r.range(2, 4);
+        auto fan = [&](int p, int leaves) { int c = add(p); for (int i = 0; i < leaves; ++i) add(c); return c; };
+        for (int c = 0; c < kids; ++c) {
+            int a = (int) r.range(1, 2), b = a + (int) r.range(1, 2);
+            int kind = (int) r.range(0, 3);
+            if (kind == 3) { path(0, (int) r.range(1, 3)); continue; }
+            int v = add(0), x = add(v), y = add(v);
+            if (kind == 0 || (kind == 2 && c % 2 == 0)) { fan(x, a); fan(x, b); fan(y, a); fan(y, b); }
+            else { fan(x, a); fan(x, a); fan(y, b); fan(y, b); }
+        }
+        break; }
     case 9:   // tiny trees: 1..4 nodes (single leaf = early return, one child, two children …)
         for (int i = 1; i < n; ++i) add((int) r.range(0, i - 1));
         break;
@@ -716,16 +730,16 @@ int main(int argc, char **argv) {
     for (long c = 0; c < nLayoutX; ++c, ++k) {
         if (!a.want(k)) continue;
         vh::Rng r = vh::caseRng(a.seed, k);
-        static const char *tags[10] = {"layoutx-random", "layoutx-lopsided", "layoutx-caterpillar", "layoutx-family14",
+        static const char *tags[11] = {"layoutx-random", "layoutx-lopsided", "layoutx-caterpillar", "layoutx-family14",
                                        "layoutx-spider", "layoutx-hubs", "layoutx-deeppath", "layoutx-star",
-                                       "layoutx-nested-lopsided", "layoutx-tiny"};
-        int shape = (int) (c % 10);
+                                       "layoutx-nested-lopsided", "layoutx-tiny", "layoutx-isomquirk"};
+        int shape = (int) (c % 11);
         int n = shape == 9 ? (int) r.range(1, 4) : (int) r.range(5, thorough ? 90 : 40);
         std::vector<int> parent;
         genLayoutTree(r, shape == 5 ? 99 : shape, n, parent);
         vh::beginCase(k, tags[shape]);
         printf("kind layout\n");
-        { int di = (int) (c / 10 % 4); int sm = (int) r.range(1, 3); int pm = r.coin(2, 3) ? 1 : 0; runLayout(r, parent, di, sm, pm, 2); }
+        { int di = (int) (c / 11 % 4); int sm = (int) r.range(1, 3); int pm = r.coin(2, 3) ? 1 : 0; runLayout(r, parent, di, sm, pm, 2); }
         vh::endCase();
     }
     return 0;
